@@ -1,7 +1,7 @@
 (* C13 — type sharing is sound (PARTIAL: the two identity keys; the other sharing mechanisms are covered by the
    differential matrix of lib/c13.py). *)
 From Coq Require Import List Bool String Ascii ZArith NArith.
-From OAS Require Import Lib.Str Model.Sharing Proof.Sharing.
+From OAS Require Import Lib.Str Model.Sharing Proof.Sharing Model.Canon Proof.Canon.
 Import ListNotations.
 Local Open Scope string_scope.
 
@@ -16,6 +16,12 @@ Proof. exact enum_key_sound. Qed.
 Theorem C13_union_key_sound : forall u1 u2 k, union_key u1 = Some k -> union_key u2 = Some k ->
   (forall v, In v (variants u1) <-> In v (variants u2)) /\ discriminator u1 = discriminator u2.
 Proof. exact union_key_sound. Qed.
+
+(* Canonical-schema identity: two schemas whose canonical forms are equal are the same JSON tree up to the order of
+   object members and the order of all-string arrays directly under required / type / enum — nothing else (value
+   sets, member types, descriptions, defaults, ...) is identified. *)
+Theorem C13_canonical_sound : forall a b, norm a = norm b -> exists c, equiv a c /\ equiv b c.
+Proof. exact canon_shared. Qed.
 
 (* The keys as they were before the fix: commits are NOT sound; the witnesses are the replays of the findings. *)
 Theorem C13_old_enum_key_refuted : exists a b s,
@@ -50,6 +56,14 @@ Example C13_nonvacuous :
   /\ union_key {| variants := [VRef "A"; VRef "B"; VInline "s"]; discriminator := None |} = None.
 Proof. vm_compute. repeat split; try reflexivity; discriminate. Qed.
 
+Example C13_canonical_nonvacuous :
+  norm (JO [("required", JA [JS "b"; JS "a"]); ("enum", JA [JS "x"; JN 1]); ("type", JS "object")])
+  = norm (JO [("type", JS "object"); ("enum", JA [JS "x"; JN 1]); ("required", JA [JS "a"; JS "b"])])
+  /\ norm (JO [("enum", JA [JN 1; JN 2])]) <> norm (JO [("enum", JA [JN 2; JN 1])])
+  /\ norm (JO [("description", JS "a")]) <> norm (JO [("description", JS "b")]).
+Proof. vm_compute. repeat split; try reflexivity; discriminate. Qed.
+
+Print Assumptions C13_canonical_sound.
 Print Assumptions C13_enum_key_sound.
 Print Assumptions C13_union_key_sound.
 Print Assumptions C13_old_enum_key_refuted.
